@@ -8,7 +8,7 @@ from pyvc.spec import ContractSet
 
 HOME = os.environ.get('VERIF_HOME', os.path.dirname(os.path.dirname(os.path.abspath(__file__))))
 
-_MODULES = ['ghosts', 'merkle', 'wallet', 'externals', 'datatypes', 'consensus', 'coinstate', 'manager', 'network', 'mining', 'pow', 'local_peer', 'framing', 'codec', 'lemmas']
+_MODULES = ['ghosts', 'merkle', 'wallet', 'peerbook', 'externals', 'datatypes', 'consensus', 'coinstate', 'manager', 'network', 'mining', 'pow', 'local_peer', 'framing', 'codec', 'lemmas']
 _cset = None
 
 
@@ -50,6 +50,19 @@ def _tx_key(eng, x, st):
 
 # level / notes per property; functions and lemmas come from the props tags on the contracts
 PROPS = {
+    'C19': dict(level='exploration', native=['native.c19'],
+                explanation="proved: DisconnectedRemotePeer.is_time_to_connect against the spelled-out schedule "
+                            "min(10 s * 2^k, 30 min) and the failure limit (contract, all inputs). Structural scans of the "
+                            "real source: who writes the two maps, guards of every insertion, order of removal/insertion in "
+                            "the connect / disconnect handlers, the retry gate in step(). The statement over event SEQUENCES "
+                            "(book never inconsistent, back-off over virtual time, self-connection, peer file) is carried by "
+                            "the bounded run, hence level `exploration`"),
+    'C08': dict(level='exploration', native=['native.c08'],
+                explanation="the statement is carried by a bounded run of the real BlockStore on real sqlite files (trees with "
+                            "spends, forks, reorganisation; several flush batchings; reload by a new store after every flush), "
+                            "hence level `exploration`; alongside, structural scans of the row construction (every field "
+                            "written and read back, INSERT arity = schema, one transaction per flush). Known finding: the "
+                            "same transaction in two stored fork blocks"),
     'C15': dict(level='proof', native=['native.c15'],
                 explanation="contracts of the two key hand-out functions verified from source against the bookkeeping "
                             "invariant (unused keys distinct, none annotated, all with a key pair): the key handed out was "
